@@ -21,13 +21,13 @@ CHECKS["C05"] = ("model_checking",
     "DESIGN.md §3 C05")
 CHECKS["C07"] = ("model_checking",
     "explicit-state BFS over storage histories with whole-store integrity scan (hash, dedup, link, immutability) after every transition",
-    "The C05 exploration on the filesystem backend with byte-identical results from different calls/functions, partitions, exceptions key-override writes of two different calls to one shared key (also by writers that seed the process-wide PRNG before writing), and write faults (ENOSPC mid-object) with and without memory cache; after every transition every stored object is re-hashed, links are followed, duplicates counted, and every live memento's bytes are compared with the bytes recorded when it was created.",
+    "The C05 exploration on the filesystem backend with byte-identical results from different calls/functions, partitions, exceptions key-override writes of two different calls to one shared key containing '#' and '/' (also by writers that seed the process-wide PRNG before writing), and write faults (ENOSPC mid-object) with and without memory cache; after every transition every stored object is re-hashed, links are followed, duplicates counted, and every live memento's bytes are compared with the bytes recorded when it was created.",
     "Depth-bounded (quick 2-3, thorough 3-5); crash/fault interleavings of a write are C08's subject, not this check's.",
     "DESIGN.md §3 C07")
 
 CHECKS["C19"] = ("model_checking",
     "explicit-state BFS over operation histories on a pre-populated store opened read-only (6 ways) with file-system audit + tree digest after every transition; exhaustive sequences for null storage / null runner",
-    "Every history to the stated depth of storage-level and function-level operations against a populated store reopened read-only by argument, storage config, cluster config, with/without cache, on the memory backend, and on a store whose data object for one call was lost before it was opened read-only: after each transition no mutating audit event under the roots, the tree digest equals the initial one, reads answer as the model, memoize is skipped, forget/metadata writes are rejected. Null storage and null runner: every operation sequence to depth 3 with body-execution counts.",
+    "Every history to the stated depth of storage-level and function-level operations against a populated store reopened read-only by argument, storage config, cluster config, with/without cache, on the memory backend, on a store whose data object for one call was lost before it was opened read-only, and from configuration objects that had been used before: after each transition no mutating audit event under the roots, the tree digest equals the initial one, reads answer as the model, memoize is skipped, forget/metadata writes are rejected. Null storage and null runner: every operation sequence to depth 3 with body-execution counts, incl. calls of the refused function from inside a running function of another cluster or of a force_local parent.",
     "Audit coverage is what CPython's audit events report (open, mkdir, remove, rename, rmdir, rmtree, truncate, link, chmod, utime); the digest catches anything else that changes file contents or names.",
     "DESIGN.md §3 C19")
 
@@ -39,43 +39,43 @@ CHECKS["C08"] = ("fault_enumeration",
 
 CHECKS["C09"] = ("model_checking",
     "stateless model checking of real threads under a controlled scheduler (sys.settrace baton + scheduler-aware library locks), iterative preemption bounding",
-    "Every schedule with at most 1 preemption (quick; 2 thorough) of 2-3 threads calling memoized functions is executed on the real runner/storage/cache code for {cold, warm store, warm cache} x {same key, different keys} x 4 backends, plus automatically versioned functions (two unrelated functions; two callers whose nested call trees share a sub-tree, cold and warm), a batch against a single call of one of its elements, and three callers of a call whose first execution ends with a not-to-be-memoized exception (bound 2 at call granularity: one caller sees the failure, the body runs twice, never twice at once; fixture bodies are traced), with scheduling points at every line of the runner, call-stack, storage and cache code and at every library lock acquisition; additionally every schedule with at most 2 (thorough 3) preemptions at runner granularity (line points in the runner, call points in storage) for the cold-store scenarios. Per execution: values, no escaped exception, exactly one body run per un-memoized call, no deadlock/livelock, cache accounting consistent and final cache equal to a sequential outcome.",
+    "Every schedule with at most 1 preemption (quick; 2 thorough) of 2-3 threads calling memoized functions is executed on the real runner/storage/cache code for {cold, warm store, warm cache} x {same key, different keys} x 4 backends, plus automatically versioned functions (two unrelated functions; two callers whose nested call trees share a sub-tree, cold and warm), a batch against a single call of one of its elements, results that are None and callers that ignore the result, and three callers of a call whose first execution ends with a not-to-be-memoized exception (bound 2 at call granularity: one caller sees the failure, the body runs twice, never twice at once; fixture bodies are traced), with scheduling points at every line of the runner, call-stack, storage and cache code and at every library lock acquisition; additionally every schedule with at most 2 (thorough 3) preemptions at runner granularity (line points in the runner, call points in storage) for the cold-store scenarios. Per execution: values, no escaped exception, exactly one body run per un-memoized call, no deadlock/livelock, cache accounting consistent and final cache equal to a sequential outcome.",
     "Switches happen only at line boundaries of the traced files and at lock acquisitions (thorough adds opcode-level points in MemoryCache); pure string/path helpers are atomic; no Python race detector exists in the image; schedules beyond the preemption bound are not explored.",
     "DESIGN.md §3 C09")
 
 CHECKS["C01"] = ("model_checking",
     "exhaustive enumeration of edit histories over generated programs, each edition executed on the real library in fresh or long-lived processes, differential oracle = un-decorated rendering of the current edition",
-    "20 program skeletons (root -> dependency chains over memento / explicit-version / plain functions through bare, module.attr, alias, decorator-wrapper and nested-call references; globals of 7 types, class constants, dotted-head bindings, late definitions, hidden dynamic edges, memento callees in a second package, several variables holding equal values) x every edit site (incl. copying one variable's value to another) x every edit sequence up to length 1 (quick) / 2 (thorough) x delivery cross-process / in-process re-exec+rebind / in-process reload / in-place mutation of tracked lists and dicts. After every edit every auto-versioned function is called with an explicit argument and with its defaults (hidden-edge programs also through force_local / partial / with_context_args clones); the result must equal the un-memoized run of the current edition or be UndeclaredDependencyError.",
+    "20 program skeletons (root -> dependency chains over memento / explicit-version / plain functions through bare, module.attr, alias, decorator-wrapper and nested-call references, references inside comprehensions / lambdas / functools.partial / conditionals / default values / nested defs, reference cycles; globals of 7 types, class constants, dotted-head bindings, late definitions, hidden dynamic edges, memento callees in a second package, several variables holding equal values) x every edit site (incl. copying one variable's value to another) x every edit sequence up to length 1 (quick) / 2 (thorough) x delivery cross-process / in-process re-exec+rebind / in-process reload / in-place mutation of tracked lists and dicts. After every edit every auto-versioned function is called with an explicit argument and with its defaults (hidden-edge programs also through force_local / partial / with_context_args clones); the result must equal the un-memoized run of the current edition or be UndeclaredDependencyError.",
     "Programs come from a fixed skeleton family, not arbitrary Python; explicit-version functions are edited only together with a version bump (of every explicit function reaching the edit); unsupported variable types and plain helpers in other packages are outside the statement.",
     "DESIGN.md §3 C01")
 
 CHECKS["C03"] = ("model_checking",
     "exhaustive enumeration of (program x hash seed x definition-order permutation x import order x first-query-order permutation) configurations, each executed in a real interpreter started with that PYTHONHASHSEED",
-    "For the C01 program skeletons plus constant-heavy, same-leaf-in-two-namespaces, in-place-fill (two fills per dict), set literals of strings / tuples / bytes, and cross-package (memento and plain functions of a second package referenced from the root and through a helper) programs: one fresh interpreter per seed (quick 9, thorough 33 seeds) imports every program under every permutation of the definition order of its functions and module-level statements (up to 5), both import orders, and queries versions in every order; each function must have exactly one version over the whole matrix. Then a second process with a different seed and reversed definition order re-runs all roots on the store the first filled: zero function bodies, equal values.",
+    "For the C01 program skeletons plus constant-heavy, same-leaf-in-two-namespaces, in-place-fill (two fills per dict), set literals of strings / tuples / bytes, helpers and variables named like builtins, factory-made helpers sharing one code object, and cross-package (memento and plain functions of a second package referenced from the root and through a helper) programs: one fresh interpreter per seed (quick 9, thorough 33 seeds) imports every program under every permutation of the definition order of its functions and module-level statements (up to 5), both import orders, and queries versions in every order; each function must have exactly one version over the whole matrix. Then a second process with a different seed and reversed definition order re-runs all roots on the store the first filled: zero function bodies, equal values.",
     "Hash seeds are a finite stated subset of 2^32 (the run fails as vacuous unless at least two distinct set iteration orders were exercised); programs come from the skeleton family.",
     "DESIGN.md §3 C03")
 
 CHECKS["C14"] = ("model_checking",
     "exhaustive enumeration of reference digraphs x kind assignments x reference forms, each program imported in a fresh process; oracle = graph reachability",
-    "Every digraph without self loops over N<=3 nodes (thorough: N=4 up to relabelling) with every assignment of kinds {memento auto, memento explicit, plain} and reference forms bare / module.attr / alias / decorator wrapper (all form assignments for N=2, covering rotations above) is rendered as a real module (graphs with 2-3 nodes additionally with the nodes spread over a module, the package __init__.py and a sibling module); for every memento node the reported transitive and direct dependencies and the dependency-graph links are compared with reachability, and every hidden dynamic call and every argument-passed call u=>v, directly and one real static call deeper (u->w=>v, including callees already on the call stack), through plain invocation and every modifier clone, must be refused exactly when v is outside the closure of the calling memento function.",
+    "Every digraph without self loops over N<=3 nodes (thorough: N=4 up to relabelling) with every assignment of kinds {memento auto, memento explicit, plain} and reference forms bare / module.attr / alias / decorator wrapper / inside a comprehension / inside a lambda / through functools.partial / module.attr assigned to a same-named local (all form assignments for N=2, covering rotations above) is rendered as a real module (graphs with 2-3 nodes additionally with the nodes spread over a module, the package __init__.py and a sibling module); for every memento node the reported transitive and direct dependencies and the dependency-graph links are compared with reachability, and every hidden dynamic call and every argument-passed call u=>v, directly and one real static call deeper (u->w=>v, including callees already on the call stack), through plain invocation and every modifier clone, must be refused exactly when v is outside the closure of the calling memento function.",
     "A function is never its own dependency (self entries and self links excluded); explicit-version callers are exempt from enforcement as documented; graphs beyond 4 nodes are not enumerated.",
     "DESIGN.md §3 C14")
 
 CHECKS["C13"] = ("model_checking",
     "explicit-state BFS over in-process event histories on a live module; oracle = versions computed by a fresh process for the program text the history denotes",
-    "Every sequence up to depth 3 (quick) / 4 (thorough) over 17 events - redefine f / g / h, rebind G and variables reachable only through a helper or only through a memento dependency, mutate a list in place, define a late symbol as helper or as variable, define a missing attribute, turn g into a plain function and back, rebind the head of a dotted name, create a modifier clone / an unregistered wrapper and query it, query f / g - is replayed in a fresh process on a live generated module; after every transition every version asked (f, g, clones and wrappers of the current code) must equal what a fresh interpreter computes for the resulting program text. One history is kept per canonical (program text, version-cache entries, generation currency, hash-rule digests) state.",
+    "Every sequence up to depth 3 (quick) / 4 (thorough) over 21 events - redefine f / g / h, redefine h with only a positional or keyword-only default changed, redefine a function that refers to itself (r) or lies on a reference cycle (p <-> q), rebind G and variables reachable only through a helper or only through a memento dependency, mutate a list in place, define a late symbol as helper or as variable, define a missing attribute, turn g into a plain function and back, rebind the head of a dotted name, create a modifier clone / an unregistered wrapper and query it, query f / g - is replayed in a fresh process on a live generated module; after every transition every version asked (f, g, clones and wrappers of the current code) (f, g, r, p, q) must equal what a fresh interpreter computes for the resulting program text. One history is kept per canonical (program text, version-cache entries, generation currency, hash-rule digests) state.",
     "Re-definitions are compiled with the module's import header (CPython emits different byte code for sys.audit depending on whether import sys is in the same compilation unit); clones/wrappers holding superseded code are not queried; locked clusters are exempt by the statement.",
     "DESIGN.md §3 C13")
 
 CHECKS["C04"] = ("model_checking",
     "bounded-exhaustive enumeration of argument values x signatures x all presentations of a binding, executed on the real reference/hash code and a filesystem store; oracle = independent implementation of the documented hash + iff-relation over all value pairs",
-    "Every value of the argument alphabet (27 atoms incl. look-alikes across bool/int/float/str, -0.0, NaN, inf, non-ASCII, dates, naive/aware datetimes; lists and string-keyed dicts incl. both insertion orders and keys that need JSON escaping; function references with partial arguments) is bound on 1-parameter functions and in combinations on 2/3-parameter, defaulted, keyword-only and **kwargs signatures, and presented in every well-defined way (positional/keyword splits, keyword orders, one or two partial applications). All presentations must give one key equal to the documented SHA-256 of the canonical JSON, one body run, and the body must receive exactly the normalized values; all ordered value pairs must share a key iff their canonical encodings are equal; context-argument dictionaries likewise; a three-level call chain is run under each context (every level computed again, nested keys equal the documented hash with that context); every ordered pair of five signatures is used as definition and re-definition of one function in a running process (module rewritten + reload) with all presentations checked after each.",
+    "Every value of the argument alphabet (27 atoms incl. look-alikes across bool/int/float/str, -0.0, NaN, inf, non-ASCII, dates, naive/aware datetimes; lists and string-keyed dicts incl. both insertion orders and keys that need JSON escaping; function references with partial arguments) is bound on 1-parameter functions and in combinations on 2/3-parameter, defaulted, keyword-only and **kwargs signatures, and presented in every well-defined way (positional/keyword splits, keyword orders, one or two partial applications). All presentations must give one key equal to the documented SHA-256 of the canonical JSON, one body run, and the body must receive exactly the normalized values; all ordered value pairs must share a key iff their canonical encodings are equal; context-argument dictionaries likewise; a three-level call chain and the batch form are run under each context (every level computed again, nested keys equal the documented hash with that context); every ordered pair of five signatures is used as definition and re-definition of one function in a running process (module rewritten + reload) with all presentations checked after each.",
     "Positional arguments of a partial application placed after a keyword partial of an earlier parameter are not a well-defined presentation (the library lets the positional overwrite the keyword) and are not generated; var-positional / positional-only signatures are excluded by the statement.",
     "DESIGN.md §3 C04")
 
 CHECKS["C11"] = ("model_checking",
     "bounded-exhaustive enumeration of mementos through the real codec; oracle = field-wise round trip + recomputed argument hash + strict JSON parser + pinned wire structure",
-    "Every value of the argument alphabet (depth 1 quick / 2 thorough) in positional, keyword, context and partial-argument position, function references with partials, invocation and resource lists, content keys (none, plain, containing '#', empty version), result types, runtimes, times (UTC, offset, naive), runner dicts and correlation ids are encoded with MementoCodec, dumped, parsed with a parser that rejects NaN/Infinity tokens, validated against the exact field names and {type, value} argument encoding, decoded and compared field by field (datetimes by instant and offset), and the argument hash is recomputed from the decoded arguments.",
+    "Every value of the argument alphabet (depth 1 quick / 2 thorough) in positional, keyword, context and partial-argument position, function references with partials, invocation lists (incl. a repeated invocation) and resource lists, content keys (none, plain, containing '#', empty version), result types, runtimes, times (UTC, offset, naive), runner dicts and correlation ids are encoded with MementoCodec, dumped, parsed with a parser that rejects NaN/Infinity tokens, validated against the exact field names and {type, value} argument encoding, decoded and compared field by field (datetimes by instant and offset), and the argument hash is recomputed from the decoded arguments.",
     "Known finding (recorded, not repaired): non-finite floats are emitted as bare NaN/Infinity tokens. Versions containing '#' are outside the alphabet (versions are uuids or empty).",
     "DESIGN.md §3 C11")
 
@@ -93,13 +93,13 @@ CHECKS["C15"] = ("model_checking",
 
 CHECKS["C10"] = ("model_checking",
     "bounded-exhaustive enumeration of call trees x pre-memoized subsets x invocation modes x backends on the real runner, plus stateless exploration of all schedules (preemption-bounded) of two threads with overlapping call trees; oracle = provenance record folded from the call tree",
-    "Root plans are all action sequences up to length 2 (quick) / 3 (thorough) over 19 actions (single call, repeated call, batch with a duplicate, failing sub-call caught or uncaught, sub-call or batch element ending with a not-to-be-memoized exception, resource handle, sub-plans to depth 3 over four automatically versioned functions); for every subset of the first 4 (6) distinct sub-invocations memoized beforehand and for single / batch-of-one / batch-of-two invocation on memory, filesystem and filesystem+cache backends, the recorded invocations (order and argument hashes), resources, dependency set and result type of the root AND of every intermediate call must equal the prediction from the tree. Concurrent part: two threads whose call trees share a sub-tree (so that a sub-call is found in the store only after the caller's pre-check missed it), every schedule with at most 1 preemption at line granularity (thorough: 2 at runner granularity) under the controlled scheduler of C09; after each execution the record of every call in both trees is compared with the static call tree.",
+    "Root plans are all action sequences up to length 2 (quick) / 3 (thorough) over 19 actions (single call, repeated call, batch with a duplicate, failing sub-call caught or uncaught, sub-call or batch element ending with a not-to-be-memoized exception, sub-call made with ignore_result, resource handle, sub-plans to depth 3 over four automatically versioned functions); for every subset of the first 4 (6) distinct sub-invocations memoized beforehand and for single / batch-of-one / batch-of-two invocation on memory, filesystem and filesystem+cache backends, the recorded invocations (order and argument hashes), resources, dependency set and result type of the root AND of every intermediate call must equal the prediction from the tree. Concurrent part: two threads whose call trees share a sub-tree (so that a sub-call is found in the store only after the caller's pre-check missed it), every schedule with at most 1 preemption at line granularity (thorough: 2 at runner granularity) under the controlled scheduler of C09; after each execution the record of every call in both trees is compared with the static call tree.",
     "The functions interpret a plan argument, so all nodes share one static closure; only the local runner.",
     "DESIGN.md §3 C10")
 
 CHECKS["C16"] = ("model_checking",
     "bounded-exhaustive enumeration of call trees x per-edge context overrides x ordered pairs of root contexts run on one store x backends; oracle = reference propagation model",
-    "For the chain root->mid->leaf (all 9 assignments of {inherit, override with {}, override with {k:3}} to its edges) and the diamond root->{mid1,mid2}->leaf (27 quick / 81 thorough assignments), every ordered pair of root contexts from {none, {}, {k:1}, {k:2}, {k:1, j:function reference}} is run successively on one store (so each sub-call is met un-memoized and memoized under equal and under different effective contexts): returned values, which bodies run, that no body receives a context argument as parameter, and the context recorded in each call's memento must follow the model (own override replaces entirely, else the caller's). With further calls prevented at the root or at an inner call, the nested memento call must fail with RuntimeError and never run, whether or not its result is already memoized.",
+    "For the chain root->mid->leaf (all 9 assignments of {inherit, override with {}, override with {k:3}} to its edges) and the diamond root->{mid1,mid2}->leaf (27 quick / 81 thorough assignments), every ordered pair of root contexts from {none, {}, {k:1}, {k:2}, {k:1, j:function reference}} is run successively on one store (the root also invoked with force_local before / after the context arguments and through call_batch) (so each sub-call is met un-memoized and memoized under equal and under different effective contexts): returned values, which bodies run, that no body receives a context argument as parameter, and the context recorded in each call's memento must follow the model (own override replaces entirely, else the caller's). With further calls prevented at the root or at an inner call, the nested memento call must fail with RuntimeError and never run, whether or not its result is already memoized.",
     "Two tree shapes; contexts over two keys; local runner.",
     "DESIGN.md §3 C16")
 
@@ -110,13 +110,13 @@ CHECKS["C02"] = ("model_checking",
     "DESIGN.md §3 C02")
 CHECKS["C17"] = ("model_checking",
     "bounded-exhaustive enumeration of partition merge chains x parent provenance x staging kinds x backends on the real codec/storage; oracle = dictionary overlay",
-    "Chains of length 0..2 (quick) / 0..3 (thorough) of memento functions each returning a partition that declares the previous one as merge parent: own key sets per level from 5 subsets of {a,b,c} (values int / str / None / list / DataFrame depending on key and level), parent obtained by computing it in the nested call, by reading it back from disk after reopening, from the memory cache, or built in memory and never serialized (lowest levels; values must be right on every call whether or not the library stores the child), in-memory and on-disk staging in all-same and alternating patterns, on filesystem, filesystem+cache and memory backends. The object returned by the first call, the object read back through a fresh backend, and every lower level of the chain afterwards must equal the overlay (own keys win, parent-only keys remain); the second call runs no body; get(k) of a read-back partition opens at most one data object.",
+    "Chains of length 0..2 (quick) / 0..3 (thorough) of memento functions each returning a partition that declares the previous one as merge parent: own key sets per level from 5 subsets of {a,b,c} (values int / str / None / list / DataFrame depending on key and level), parent obtained by computing it in the nested call, by reading it back from disk after reopening, from the memory cache, or built in memory and never serialized (lowest levels; values must be right on every call whether or not the library stores the child), in-memory (also over a defaultdict) and on-disk staging in all-same and alternating patterns, chains whose levels are all stored under one shared key override, on filesystem, filesystem+cache and memory backends. The object returned by the first call, the object read back through a fresh backend, and every lower level of the chain afterwards must equal the overlay (own keys win, parent-only keys remain); the second call runs no body; get(k) of a read-back partition opens at most one data object.",
     "Key alphabet of three; merge parents are set through the _merge_parent attribute as the library's own tests do.",
     "DESIGN.md §3 C17")
 
 CHECKS["C18"] = ("model_checking",
     "exhaustive enumeration of the option matrix x supply forms x overrides x repository orders (incl. prepend/append after a first resolution); differential oracle = behavioural probes of the constructor-built twin",
-    "All 90 combinations of storage type {filesystem, memory, null} x metadata_path x memory_cache_mb x readonly {absent, false, true} x runner {absent, local, null}, each supplied as inline dict, as JSON files (environment -> repository -> cluster) and as a YAML repository file with a template parameter, are compared with the cluster built from constructor arguments through behavioural probes (where data and mementos land, whether a repeated read opens files, whether memoize / forget / metadata writes are accepted, whether calls run); each environment is then dumped with to_dict() and rebuilt: same probes, and a result written through the original must be served through the rebuilt one. Nine explicit-argument overrides (incl. putting a separated metadata path back under the data path and switching a configured cache off) must win over the configuration, also after the overridden environment is dumped and rebuilt. Repository lists of length 1..3 over all cluster-name subsets in every order, also with a prepend or append after a first resolution, must resolve each name to the first repository defining it (identity, where the call stores, and after dump/rebuild).",
+    "All 90 combinations of storage type {filesystem, memory, null} x metadata_path x memory_cache_mb x readonly {absent, false, true} x runner {absent, local, null}, each supplied as inline dict (also one that was used to build an environment before), as JSON files (environment -> repository -> cluster) and as a YAML repository file with a template parameter, are compared with the cluster built from constructor arguments through behavioural probes (where data and mementos land, whether a repeated read opens files, whether memoize / forget / metadata writes are accepted, whether calls run); each environment is then dumped with to_dict() and rebuilt: same probes, and a result written through the original must be served through the rebuilt one. Nine explicit-argument overrides (incl. putting a separated metadata path back under the data path and switching a configured cache off) must win over the configuration, also after the overridden environment is dumped and rebuilt. Repository lists of length 1..3 over all cluster-name subsets in every order (clusters registered under their own name or under a key that differs from their name field), also with a prepend or append after a first resolution, must resolve each name to the first repository defining it (identity, where the call stores, and after dump/rebuild).",
     "Options documented for the shipped backends only; paths in scratch space.",
     "DESIGN.md §3 C18")
 
